@@ -310,6 +310,35 @@ def _typed_sequence_task(srv, item):
     return out
 
 
+def _typed_default_task(srv, item):
+    """An unparsable value met when there is no earlier file value: the value in force is the registered default, whether the setting was registered
+    before the file was loaded or after it (the daemon loads its file before the modules register theirs)."""
+    out = []
+    for st, text in item:
+        dtext, dval = GOOD[st]
+        reg = C.reg_string('t', dtext, st)
+        f = ('t %s\n' % quote(text)).encode('latin-1')
+        for order, hist, cand in (('registered, then loaded', [reg], C.load(f)), ('loaded, then registered', [C.load(f)], reg)):
+            h, res = srv.expand(hist, [cand])
+            r = res[0]
+            got = _pv(r['dump'], 't') if r.get('status') == 'ok' and r.get('rc') == 0 else ('%s rc=%s' % (r.get('status'), r.get('rc')))
+            out.append((st, text, 'rejected, default %r stays (%s)' % (dval, order), got, got == dval))
+    return out
+
+
+def _float_step_task(srv, item):
+    """A float setting moved by a tiny step between two loads delivers the second value exactly."""
+    a, c = item
+    reg = C.reg_string('t', None, 3)
+    h, res = srv.expand([reg, C.load(('t "%s"\n' % a).encode())], [C.load(('t "%s"\n' % c).encode())])
+    r = res[0]
+    got = _pv(r['dump'], 't') if r.get('status') == 'ok' and r.get('rc') == 0 else ('%s rc=%s' % (r.get('status'), r.get('rc')))
+    return [(3, '%s then %s' % (a, c), repr(float(c)), got, got == repr(float(c)))]
+
+
+FLOAT_STEPS = [('0.1', '0.10000000000000012'), ('1', '1.0000000000000002'), ('3e-16', '1e-16'), ('0', '1e-16'), ('1e-16', '0'), ('2.5', '2.5000000000000004'), ('1e300', '1.0000000000000002e300'),
+               ('-0.0', '0.0'), ('8', '8.000000000000002'), ('1e-320', '2e-320')]
+
 EXTREME_FIRST = [b't3 "1e-400"\n', b't3 "1e999"\nt2 "7"\n', b't2 "99999999999999999999999"\n', b't3 "-1e999"\n', b't4 "99999999999y"\n', b't5 "9999999999G"\n',
                  b't2 "12z"\nt3 "x"\n', b't1 "maybe"\n', b't2 (unterminated\n', b't3 "0.0000000000000000000000000000000000000000000000000000000000000000000000000000000000000000000000000000001e-300"\n']
 
@@ -412,6 +441,24 @@ def main(tier):
                     cls = 'C16.typed/%s/%s' % (SUBNAME[st], 'unparsable-accepted' if unp else 'wrong-value')
                     run.violation(cls, '%s value %r: expected %s, the setting delivers %r' % (SUBNAME[st], text, want, got),
                                   {'engine': 'conf', 'typed': [st, text], 'expected': want}, dedup=cls)
+        bads = [(st, text) for st, text, want in tc if want is None]
+        for res in (pool.imap(_typed_default_task, [bads[k:k + 4] for k in range(0, len(bads), 4)]) if not run.capped else []):
+            if isinstance(res, dict):
+                raise common.HarnessError(res['harness_error'])
+            for st, text, want, got, ok in res:
+                n_typed += 1
+                if not ok:
+                    n_typed_bad += 1
+                    run.violation('C16.typed/%s/default-lost' % SUBNAME[st], 'setting of subtype %s given the unparsable text %r: expected %s, the setting holds %r' % (SUBNAME[st], text, want, got),
+                                  {'engine': 'conf', 'typed_default': [st, text]}, dedup='deflost|%d|%s' % (st, want[-30:]))
+        for res in (pool.imap(_float_step_task, FLOAT_STEPS) if not run.capped else []):
+            if isinstance(res, dict):
+                raise common.HarnessError(res['harness_error'])
+            for st, text, want, got, ok in res:
+                n_typed += 1
+                if not ok:
+                    n_typed_bad += 1
+                    run.violation('C16.typed/float/small-step', 'float setting loaded as %s: expected %s, the setting holds %r' % (text, want, got), {'engine': 'conf', 'float_step': text}, dedup='fstep')
         for res in (pool.imap(_typed_sequence_task, EXTREME_FIRST) if not run.capped else []):
             if isinstance(res, dict):
                 raise common.HarnessError(res['harness_error'])
